@@ -746,4 +746,235 @@ theorem foldMerge_keys (cfg : Cfg) (acc : Mapping) (ps : List Mapping) (d : Mapp
           exact ⟨x, (List.mem_filter.1 hx).1, rfl⟩
 
 
+/-! ## recursion depth on trees with clean names -/
+
+theorem mapE_ok_mem {α β ε : Type} (g : α → Except ε β) (l : List α) (bs : List β) (h : mapE g l = .ok bs) :
+    ∀ b, b ∈ bs → ∃ a, a ∈ l ∧ g a = .ok b := by
+  induction l generalizing bs with
+  | nil => simp [mapE] at h; subst h; intro b hb; cases hb
+  | cons a as ih =>
+    rw [mapE_ok_cons_iff] at h
+    obtain ⟨b0, bs0, h1, h2, rfl⟩ := h
+    intro b hb
+    cases List.mem_cons.1 hb with
+    | inl e => subst e; exact ⟨a, List.mem_cons_self, h1⟩
+    | inr hm =>
+      obtain ⟨a', ha', hg⟩ := ih bs0 h2 b hm
+      exact ⟨a', List.mem_cons_of_mem _ ha', hg⟩
+
+
+
+theorem nodup_subset_length {α : Type} [DecidableEq α] (l s : List α) (hn : l.Nodup)
+    (hs : ∀ x, x ∈ l → x ∈ s) : l.length ≤ s.length := by
+  induction l generalizing s with
+  | nil => simp
+  | cons a l' ih =>
+    rw [List.nodup_cons] at hn
+    have ha : a ∈ s := hs a List.mem_cons_self
+    have hsub : ∀ x, x ∈ l' → x ∈ s.erase a := by
+      intro x hx
+      have hne : x ≠ a := fun e => hn.1 (e ▸ hx)
+      exact (List.mem_erase_of_ne hne).2 (hs x (List.mem_cons_of_mem _ hx))
+    have := ih (s.erase a) hn.2 hsub
+    rw [List.length_erase_of_mem ha] at this
+    have hpos : 0 < s.length := List.length_pos_of_mem ha
+    simp only [List.length_cons]
+    omega
+
+theorem mapE_congr {α β ε : Type} (g1 g2 : α → Except ε β) (l : List α) (h : ∀ a, a ∈ l → g1 a = g2 a) :
+    mapE g1 l = mapE g2 l := by
+  induction l with
+  | nil => rfl
+  | cons a as ih =>
+    simp only [mapE, h a List.mem_cons_self, ih (fun x hx => h x (List.mem_cons_of_mem _ hx))]
+
+theorem expandAll_congr (g1 g2 : Name → Name → FileNode → Except Err (List Mapping))
+    (rs : List (Name × Name × FileNode)) (h : ∀ r, r ∈ rs → g1 r.1 r.2.1 r.2.2 = g2 r.1 r.2.1 r.2.2) :
+    expandAll g1 rs = expandAll g2 rs := by
+  unfold expandAll
+  rw [mapE_congr _ _ rs h]
+
+theorem resolveAll_mem (tree : Tree) (names : List Name) (rs : List (Name × Name × FileNode))
+    (h : resolveAll tree names = .ok rs) :
+    ∀ r, r ∈ rs → r.1 ∈ names ∧ resolveFile tree r.1 = .ok (r.2.1, r.2.2) := by
+  induction names generalizing rs with
+  | nil => simp [resolveAll, mapE] at h; subst h; intro r hr; cases hr
+  | cons n ns ih =>
+    rw [resolveAll_cons_ok_iff] at h
+    obtain ⟨place, node, rs', h1, h2, rfl⟩ := h
+    intro r hr
+    cases List.mem_cons.1 hr with
+    | inl heq => subst heq; exact ⟨List.mem_cons_self, h1⟩
+    | inr hmem => exact ⟨List.mem_cons_of_mem _ (ih rs' h2 r hmem).1, (ih rs' h2 r hmem).2⟩
+
+/-- a name of the documented syntax: at least one segment, no empty segment -/
+def CleanName (n : Name) : Prop := n ≠ [] ∧ "" ∉ n
+
+/-- an include name of the documented syntax: leading dots, then a clean name -/
+def CleanInc (i : Name) : Prop := CleanName (i.drop (leadingDots i))
+
+theorem pathOf_clean (n : Name) (h : CleanName n) : pathOf n = n := by
+  unfold pathOf
+  rw [List.filter_eq_self]
+  intro s hs
+  simp
+  intro e; subst e; exact h.2 hs
+
+theorem cleanName_append (a b : Name) (ha : "" ∉ a) (hb : CleanName b) : CleanName (a ++ b) := by
+  refine ⟨?_, ?_⟩
+  · intro h; exact hb.1 (List.append_eq_nil_iff.1 h).2
+  · intro h; rw [List.mem_append] at h
+    cases h with
+    | inl h => exact ha h
+    | inr h => exact hb.2 h
+
+theorem resolveRelative_clean (i place n : Name) (hi : CleanInc i) (hp : "" ∉ place)
+    (h : resolveRelative i place = .ok n) : CleanName n := by
+  have hdoc := resolveRelative_doc i place
+  rw [h] at hdoc
+  simp only [toOpt] at hdoc
+  unfold docResolve at hdoc
+  simp only at hdoc
+  by_cases hk : leadingDots i = 0
+  · simp only [hk, if_true, Option.some.injEq] at hdoc
+    subst hdoc
+    unfold CleanInc at hi
+    rw [hk] at hi
+    simpa using hi
+  · simp only [hk, if_false] at hdoc
+    split at hdoc
+    · cases hdoc
+    · split at hdoc
+      · cases hdoc
+      · simp only [Option.some.injEq] at hdoc
+        subst hdoc
+        apply cleanName_append
+        · intro hm; exact hp (List.mem_of_mem_take hm)
+        · exact hi
+
+/-- a finite tree whose include names all have the documented syntax -/
+structure CleanTree (tree : Tree) (files : List Path) : Prop where
+  finite : ∀ p, tree p ≠ none → p ∈ files
+  incs : ∀ p kvs incs, tree p = some (.file (.mapping kvs)) →
+    includeNames (splitAtInclude kvs).2.1 = .ok incs → ∀ i, i ∈ incs → CleanInc i
+
+theorem resolveFile_clean (tree : Tree) (name res : Name) (node : FileNode) (hc : CleanName name)
+    (h : resolveFile tree name = .ok (res, node)) :
+    (tree name ≠ none ∨ tree (name ++ ["init"]) ≠ none) ∧ "" ∉ res ∧ ∃ p, tree p = some node := by
+  unfold resolveFile at h
+  rw [pathOf_clean name hc] at h
+  have hne : ¬ name = [] := hc.1
+  simp only [hne, if_false] at h
+  have hinit : "" ∉ name ++ ["init"] := by
+    intro hm; rw [List.mem_append] at hm
+    cases hm with
+    | inl hm => exact hc.2 hm
+    | inr hm => simp at hm
+  split at h
+  · rename_i p hp; cases h; exact ⟨Or.inl (by rw [hp]; simp), hc.2, name, hp⟩
+  · rename_i hp; cases h; exact ⟨Or.inl (by rw [hp]; simp), hc.2, name, hp⟩
+  · split at h
+    · rename_i nd hp; cases h; exact ⟨Or.inr (by rw [hp]; simp), hinit, _, hp⟩
+    · cases h
+
+
+
+
+section
+variable (tree : Tree) (files : List Path)
+
+/-- every ancestor is the top file or a clean name that resolves; no name occurs twice -/
+def Chain (parents : List Name) : Prop :=
+  parents.Nodup ∧ ∀ n, n ∈ parents → n = TOPFILE ∨ (CleanName n ∧ (tree n ≠ none ∨ tree (n ++ ["init"]) ≠ none))
+
+def depthBound : Nat := 2 * files.length + 1
+
+theorem chain_length (hct : CleanTree tree files) (parents : List Name) (hc : Chain tree parents) :
+    parents.length ≤ depthBound files := by
+  have := nodup_subset_length parents (TOPFILE :: (files ++ files.map List.dropLast)) hc.1 (by
+    intro n hn
+    cases hc.2 n hn with
+    | inl h => rw [h]; exact List.mem_cons_self
+    | inr h =>
+      apply List.mem_cons_of_mem
+      rw [List.mem_append]
+      cases h.2 with
+      | inl h1 => exact Or.inl (hct.finite n h1)
+      | inr h1 =>
+        refine Or.inr ?_
+        rw [List.mem_map]
+        exact ⟨n ++ ["init"], hct.finite _ h1, by simp⟩)
+  simp only [List.length_cons, List.length_append, List.length_map] at this
+  unfold depthBound
+  omega
+
+theorem expandFile_fuel_irrelevant (hct : CleanTree tree files) (f : Nat) :
+    ∀ (g : Nat) (parents : List Name) (name res : Name) (node : FileNode),
+      Chain tree parents → CleanName name → resolveFile tree name = .ok (res, node) →
+      depthBound files < f + parents.length → depthBound files < g + parents.length →
+      expandFile f tree parents name res node = expandFile g tree parents name res node := by
+  induction f with
+  | zero =>
+    intro g parents name res node hc _ _ hf _
+    have := chain_length tree files hct parents hc
+    omega
+  | succ f ih =>
+    intro g parents name res node hc hcn hres hf hg
+    cases g with
+    | zero =>
+      have := chain_length tree files hct parents hc
+      omega
+    | succ g =>
+      rw [expandFile.eq_def, expandFile.eq_def]
+      by_cases hmem : name ∈ parents
+      · simp [hmem]
+      · simp only [hmem, if_false]
+        obtain ⟨hresolv, hresclean, p, hp⟩ := resolveFile_clean tree name res node hcn hres
+        have hchain' : Chain tree (parents ++ [name]) := by
+          refine ⟨?_, ?_⟩
+          · rw [List.nodup_append]
+            refine ⟨hc.1, by simp, ?_⟩
+            intro a ha b hb
+            simp at hb; subst hb
+            intro e; subst e; exact hmem ha
+          · intro n hn
+            rw [List.mem_append] at hn
+            cases hn with
+            | inl h => exact hc.2 n h
+            | inr h => simp at h; subst h; exact Or.inr ⟨hcn, hresolv⟩
+        cases node with
+        | dir => rfl
+        | renderError => rfl
+        | file pr =>
+          cases pr with
+          | error => rfl
+          | nonMapping => rfl
+          | mapping kvs =>
+            simp only [processContent_eq_split]
+            cases hi : includeNames (splitAtInclude kvs).2.1 with
+            | error e => rfl
+            | ok incs =>
+              simp only [bindE]
+              cases hn : mapE (fun i => resolveRelative i res) incs with
+              | error e => rfl
+              | ok names =>
+                simp only []
+                cases hr : resolveAll tree names with
+                | error e => rfl
+                | ok rs =>
+                  simp only []
+                  have hcong := expandAll_congr
+                    (fun n r nd => expandFile f tree (parents ++ [name]) n r nd)
+                    (fun n r nd => expandFile g tree (parents ++ [name]) n r nd) rs (by
+                      intro r hr'
+                      obtain ⟨hmemn, hresr⟩ := resolveAll_mem tree names rs hr r hr'
+                      obtain ⟨i, hi', hri⟩ := mapE_ok_mem _ incs names hn r.1 hmemn
+                      have hclean := resolveRelative_clean i res r.1 (hct.incs p kvs incs hp hi i hi') hresclean hri
+                      apply ih g (parents ++ [name]) r.1 r.2.1 r.2.2 hchain' hclean hresr
+                      · simp only [List.length_append, List.length_cons, List.length_nil]; omega
+                      · simp only [List.length_append, List.length_cons, List.length_nil]; omega)
+                  rw [hcong]
+
+end
+
 end Vinegar.Yaml
